@@ -1,5 +1,7 @@
 (* Options/Store.v — OptionKey, the OptionStore state and its accessors/mutators
    (mesonbuild/options.py:116-316, 773-1234).  Model only, no proofs.
+   file:line comments refer to snapshot b8a063f; since f224058 / 0fc463c (set_option
+   returns `changed or unsaved`) everything after options.py:1050 sits 5-6 lines lower.
    POSIX host paths only (pure_path_class = PurePosixPath). *)
 From MV Require Import Base.Strs Options.Kinds.
 Open Scope N_scope.
@@ -375,24 +377,25 @@ Definition resolve_for_set (s : store) (k : key) : res (key * opt) :=   (* optio
   | Err e => Err e
   end.
 
-(* options.py:1049-1056: write the validated value; returns the old value *)
-Definition store_value (s : store) (k rk : key) (v3 : pv) : res (store * pv) :=
+(* options.py:1049-1061: write the validated value; returns the old value and the
+   `unsaved` flag (the option was yielding before this call / the key had no augment yet) *)
+Definition store_value (s : store) (k rk : key) (v3 : pv) : res (store * pv * bool) :=
   match dget (options s) rk with
   | None => Err EOOM                   (* the resolved object cannot disappear *)
   | Some o1 =>
       if dmem (options s) k then
         do v4 <- validate (okind o1) v3;                       (* opt.set_value *)
-        Ok (set_options s (dset (options s) rk (with_yield (with_value o1 v4) false)), ovalue o1)
+        Ok (set_options s (dset (options s) rk (with_yield (with_value o1 v4) false)), ovalue o1, oyield o1)
       else
         match ksub k with
         | None => Err EAssert
         | Some _ =>
             let old := match dget (augments s) k with Some a => a | None => ovalue o1 end in
-            Ok (set_augments s (dset (augments s) k v3), old)
+            Ok (set_augments s (dset (augments s) k v3), old, negb (dmem (augments s) k))
         end
   end.
 
-(* options.py:1008-1075 *)
+(* options.py:1008-1080 *)
 Fixpoint set_option (fuel : nat) (s : store) (k : key) (v : pv) (first : bool) : res (store * bool) :=
   match fuel with
   | O => Err ERecursion
@@ -410,17 +413,17 @@ Fixpoint set_option (fuel : nat) (s : store) (k : key) (v : pv) (first : bool) :
               end;
       let '(s1, v2, ch0) := d in
       do v3 <- validate (okind o) v2;                                    (* 1048 *)
-      do w <- store_value s1 k rk v3;                                    (* 1049-1056 *)
-      let '(s2, old) := w in
-      let changed := ch0 || negb (pv_eqb old v3) in                      (* 1058 *)
-      if oreadonly o && changed && negb first then Err EMeson else       (* 1059-1060 *)
-      do s3 <- (if str_eqb (kname k) (s2l "prefix") && first && changed then   (* 1062-1065 *)
+      do w <- store_value s1 k rk v3;                                    (* 1049-1061 *)
+      let '(s2, old, unsaved) := w in
+      let changed := ch0 || negb (pv_eqb old v3) in                      (* 1063 *)
+      if oreadonly o && changed && negb first then Err EMeson else       (* 1064-1065 *)
+      do s3 <- (if str_eqb (kname k) (s2l "prefix") && first && changed then   (* 1067-1070 *)
                   match old, v3 with
                   | PStr op, PStr np => reset_prefixed_options s2 op np
                   | _, _ => Err EAssert
                   end
                 else Ok s2);
-      if changed && str_eqb (kname k) (s2l "buildtype") && negb (pv_eqb v3 (PStr (s2l "custom"))) then  (* 1067-1073 *)
+      if changed && str_eqb (kname k) (s2l "buildtype") && negb (pv_eqb v3 (PStr (s2l "custom"))) then  (* 1072-1078 *)
         match v3 with
         | PStr b =>
             match sassoc DEFAULT_DEPENDENTS b with
@@ -428,12 +431,12 @@ Fixpoint set_option (fuel : nat) (s : store) (k : key) (v : pv) (first : bool) :
             | Some (optimization, debug) =>
                 do r1 <- set_option f s3 (evolve_name k (s2l "debug")) (PBool debug) first;
                 do r2 <- set_option f (fst r1) (evolve_name k (s2l "optimization")) (PStr optimization) first;
-                Ok (fst r2, changed)
+                Ok (fst r2, changed || unsaved)                        (* 1080: return changed or unsaved *)
             end
         | PList _ => Err EOOM      (* unhashable: TypeError *)
         | _ => Err EKey
         end
-      else Ok (s3, changed)
+      else Ok (s3, changed || unsaved)
   end.
 
 (* enough for every acyclic deprecated-name chain plus the buildtype expansion *)
